@@ -1350,3 +1350,21 @@ Theorem readonly_run a m t h b : mon_run unclean (init_repo a m t) h = false -> 
   oget (fs (run_items (init_repo a m t) h)) b <> None ->
   dget (fs (run_items (init_repo a m t) h)) (a_digest b) = Some false.
 Proof. intros G P. apply (ro_run h _ (INV_init a m t) (DRO_init a m t) G P). Qed.
+
+(* the same statements for histories from an initialised repository *)
+Lemma reachable_run a m t h : mon_run unclean (init_repo a m t) h = false -> reachable (run_items (init_repo a m t) h).
+Proof. intros G. exists a, m, t, h. auto. Qed.
+
+Theorem cas_run a m t h b c : mon_run unclean (init_repo a m t) h = false ->
+  obj_read (fs (run_items (init_repo a m t) h)) b = Some c -> fits (a_digest b) c.
+Proof. intros G. apply cas_reachable. now apply reachable_run. Qed.
+
+Theorem objects_plain_run a m t h b e : mon_run unclean (init_repo a m t) h = false ->
+  oget (fs (run_items (init_repo a m t) h)) b = Some e ->
+  exists i n, e = EFile i /\ iget (fs (run_items (init_repo a m t) h)) i = Some n /\ i_w n = false /\
+              (forall b', oget (fs (run_items (init_repo a m t) h)) b' = Some (EFile i) -> b' = b).
+Proof.
+  intros G H. pose proof (reachable_run a m t h G) as Hr.
+  destruct (objects_plain _ _ _ Hr H) as (i & n & -> & Hi & Hw). exists i, n.
+  split; [auto|split; [auto|split; [auto|]]]. intros b' Hb'. eapply objects_private_inodes; eauto.
+Qed.
